@@ -1,4 +1,8 @@
 import OcppModel.ClientDisp
+import OcppModel.ServerDisp
+import OcppModel.ServerSpec
+import OcppModel.DispSpec
+import OcppModel.Endpoint
 
 /-! Line-protocol driver for suite `cdisp` (ocppj client + default dispatcher at quiescence). -/
 namespace Ocpp.Drv
@@ -40,5 +44,157 @@ def stepCDisp (st : St) (f : List String) : St × String :=
     match parseEv f with
     | none => (st, "bad-op")
     | some e => let (s, o) := CD.step st e; (s, joinSp (o.map showObs))
+
+def showSObs : SD.Obs → String
+  | .accepted c id => s!"accepted:{c}:{id}"
+  | .rejected c id => s!"rejected:{c}:{id}"
+  | .wrote c id => s!"wrote:{c}:{id}"
+  | .resp c id => s!"resp:{c}:{id}"
+  | .errResp c id => s!"err:{c}:{id}"
+  | .cancel c id t => s!"cancel:{c}:{id}:{if t then "timeout" else "write"}"
+  | .panic => "PANIC"
+  | .blocked => "BLOCKED"
+  | .dead => "DEAD"
+  | .stopped => "stopped"
+
+def parseSEv : List String → Option SD.Ev
+  | ["connect", c] => some (.connect c)
+  | ["disconnect", c] => some (.disconnect c)
+  | ["send", c, id] => some (.send c id)
+  | ["reply", c, id, "result"] => some (.reply c id false)
+  | ["reply", c, id, "error"] => some (.reply c id true)
+  | ["wait"] => some .wait
+  | ["writefail", c, "on"] => some (.writeFail c true)
+  | ["writefail", c, "off"] => some (.writeFail c false)
+  | ["start"] => some .start
+  | ["stop"] => some .stop
+  | _ => none
+
+def stepSDisp (st : SD.St) (f : List String) : SD.St × String :=
+  match f with
+  | ["reset", cap] => (SD.init (cap.toInt?.getD 0), "ok")
+  | _ =>
+    match parseSEv f with
+    | none => (st, "bad-op")
+    | some e => let (s, o) := SD.step st e; (s, joinSp (o.map showSObs))
+
+end Ocpp.Drv
+
+/-! Monitor modes: the specification monitors run over a history observed on the **implementation**
+    (lines `event fields | observation fields`), reporting the first clause that is violated. -/
+namespace Ocpp.Drv
+
+def splitBar (f : List String) : List String × List String :=
+  let rec go : List String → List String → List String × List String
+    | [], acc => (acc.reverse, [])
+    | "|" :: rest, acc => (acc.reverse, rest)
+    | x :: rest, acc => go rest (x :: acc)
+  go f []
+
+def splitColon (s : String) : List String :=
+  (s.toList.foldr (fun c (acc : List (List Char)) =>
+    if c == ':' then [] :: acc else match acc with
+      | [] => [[c]]
+      | h :: t => (c :: h) :: t) [[]]).map String.ofList
+
+def parseObs (s : String) : Option CD.Obs :=
+  match splitColon s with
+  | ["accepted", id] => some (.accepted id)
+  | ["rejected", id] => some (.rejected id)
+  | ["wrote", id] => some (.wrote id)
+  | ["resp", id] => some (.resp id)
+  | ["err", id] => some (.errResp id)
+  | ["cancel", id, "timeout"] => some (.cancel id true)
+  | ["cancel", id, "write"] => some (.cancel id false)
+  | ["PANIC"] => some .panic
+  | ["BLOCKED"] => some .blocked
+  | ["DEAD"] => some .dead
+  | ["stopped"] => some .stopped
+  | _ => none
+
+def parseSObs (s : String) : Option SD.Obs :=
+  match splitColon s with
+  | ["accepted", c, id] => some (.accepted c id)
+  | ["rejected", c, id] => some (.rejected c id)
+  | ["wrote", c, id] => some (.wrote c id)
+  | ["resp", c, id] => some (.resp c id)
+  | ["err", c, id] => some (.errResp c id)
+  | ["cancel", c, id, "timeout"] => some (.cancel c id true)
+  | ["cancel", c, id, "write"] => some (.cancel c id false)
+  | ["PANIC"] => some .panic
+  | ["BLOCKED"] => some .blocked
+  | ["DEAD"] => some .dead
+  | ["stopped"] => some .stopped
+  | _ => none
+
+def parseObsList {α} (p : String → Option α) (l : List String) : Option (List α) :=
+  if l == ["-"] then some [] else l.mapM p
+
+/-- state: `none` = already violated in this session -/
+def stepCMon (st : Option CD.Mon) (f : List String) : Option CD.Mon × String :=
+  if f.head? == some "reset" then (some {}, "ok") else
+    match st with
+    | none => (none, "skipped")
+    | some m =>
+      let (ef, of) := splitBar f
+      match parseEv ef, parseObsList parseObs of with
+      | some e, some obs =>
+        match CD.Mon.event m e obs with
+        | some m' => (some m', "ok")
+        | none => (none, "VIOLATION")
+      | _, _ => if of == ["TIMING"] then (none, "skipped") else (some m, "unparsed")
+
+def stepSMon (st : Option SD.SMonSt) (f : List String) : Option SD.SMonSt × String :=
+  if f.head? == some "reset" then (some {}, "ok") else
+    match st with
+    | none => (none, "skipped")
+    | some m =>
+      let (ef, of) := splitBar f
+      match parseSEv ef, parseObsList parseSObs of with
+      | some e, some obs =>
+        match SD.SMonSt.event m e obs with
+        | some m' => (some m', "ok")
+        | none => (none, "VIOLATION")
+      | _, _ => if of == ["TIMING"] then (none, "skipped") else (some m, "unparsed")
+
+end Ocpp.Drv
+
+namespace Ocpp.Drv
+open Ocpp.L3
+
+def showDel : Del → String
+  | .accepted c id => s!"accepted:{c}:{id}"
+  | .rejected c id => s!"rejected:{c}:{id}"
+  | .wrote c id => s!"wrote:{c}:{id}"
+  | .deliv cb kind id => s!"deliv:{cb}:{kind}:{id}"
+  | .orphan kind id => s!"orphan:{kind}:{id}"
+  | .stopped => "stopped"
+  | .panic => "PANIC"
+  | .blocked => "BLOCKED"
+  | .dead => "DEAD"
+
+/-- canonical order inside one event (as in the harness): everything else in order, then deliveries sorted -/
+def canonDels (l : List Del) : String :=
+  let isD : Del → Bool := fun d => match d with | .deliv _ _ _ => true | .orphan _ _ => true | _ => false
+  let pre := l.filter (fun d => match d with | .accepted _ _ => true | .rejected _ _ => true | .stopped => true | _ => false)
+  let mid := l.filter (fun d => !isD d && !(match d with | .accepted _ _ => true | .rejected _ _ => true | .stopped => true | _ => false))
+  let ds := ((l.filter isD).map showDel).mergeSort (fun a b => decide (a ≤ b))
+  joinSp (pre.map showDel ++ mid.map showDel ++ ds)
+
+def stepL3S (st : L3.SSt) (f : List String) : L3.SSt × String :=
+  match f with
+  | "reset" :: cap :: _ => ({ d := SD.init (cap.toInt?.getD 0) }, "ok")
+  | _ =>
+    match parseSEv f with
+    | none => (st, "bad-op")
+    | some e => let (s, o) := L3.sstep st e; (s, canonDels o)
+
+def stepL3C (st : L3.CSt) (f : List String) : L3.CSt × String :=
+  match f with
+  | "reset" :: cap :: _ => ({ d := CD.init (cap.toInt?.getD 0) }, "ok")
+  | _ =>
+    match parseEv f with
+    | none => (st, "bad-op")
+    | some e => let (s, o) := L3.cstep st e; (s, canonDels o)
 
 end Ocpp.Drv
